@@ -15,7 +15,7 @@ git -C /repo worktree remove --force $WT 2>/dev/null
 git -C /repo worktree add -q --detach $WT HEAD || exit 2
 cd $WT
 git apply $SRC/patch.diff || git apply -3 $SRC/patch.diff || { echo "PATCH-DOES-NOT-APPLY"; exit 3; }
-if [ -f $SRC/seeded_demo.rs ]; then mkdir -p tests; cp $SRC/seeded_demo.rs tests/; fi
+if [ -f $SRC/seeded_demo.rs ]; then mkdir -p tests; cp $SRC/seeded_demo* tests/; fi
 DEMOKIND="--test seeded_demo"
 if [ -f $SRC/demo.diff ] && [ ! -f $SRC/seeded_demo.rs ]; then git apply $SRC/demo.diff || echo "DEMO-DIFF-DOES-NOT-APPLY"; DEMOKIND="--lib seeded_demo"; fi
 echo "== existing suite with patch"
@@ -30,7 +30,7 @@ echo "== demo without patch (expect pass)"
 git apply -R $SRC/patch.diff || echo "REVERSE-FAILED"
 RUSTFLAGS="$FLAGS" CARGO_TARGET_DIR=/tmp/seed_target_$SLOT${FLAGS:+_verif} timeout 1800 cargo test --offline $DEMOKIND 2>&1 | grep -E "test result|panicked|FAILED|error(\[|:)" | head -8
 git apply $SRC/patch.diff
-rm -f tests/seeded_demo.rs
+rm -f tests/seeded_demo*
 if [ -f $SRC/demo.diff ] && [ ! -f $SRC/seeded_demo.rs ]; then git apply -R $SRC/demo.diff 2>/dev/null; fi
 if [ -n "$CHECKS" ]; then
   # bring the scratch tree up to /repo's working tree (uncommitted hook blocks of checks being built), then the seed on top
